@@ -196,6 +196,7 @@ class RefPeer:
     def on_datagram(self, data, src, dst):
         data = bytes(data)
         self.transcript.append((self.w.now, 'in', data))
+        self._src, self._raw = src, data
         try:
             h = R.dec_header(data)
         except R.DecodeError as ex:
@@ -395,10 +396,13 @@ class RefPeer:
             if shared is not None:
                 out.append(out_ke)
             out += [{'type': R.P_TSi, 'selectors': [a]}, {'type': R.P_TSr, 'selectors': [b]}]
+            node = self.w.net.node_of_addr(self._src)
             ch = {'t': self.w.now, 'session': s, 'initial': initial, 'pfs': shared is not None, 'rekey_of': rekeyed and rekeyed['spi_init'],
-                  'x_init': None, 'x_resp': self.name, 'x_init_addr': None, 'x_resp_addr': self.addr,
+                  'x_init': node.name if node else None, 'x_resp': self.name, 'x_init_addr': self._src, 'x_resp_addr': self.addr,
                   'spi_init': prop['spi'], 'spi_resp': my_spi, 'proto': prop['proto'], 'encr_bits': (encr['keylen'] or 128) if encr else 0,
-                  'integ': integ['id'], 'transport': transport, 'tsi': [a], 'tsr': [b], 'keymat': km, 'entry': ent, 'alive': True}
+                  'integ': integ['id'], 'transport': transport, 'transport_q': transport, 'transport_r': transport,
+                  'tsi': [a], 'tsr': [b], 'tsi_offer': tsi['selectors'], 'tsr_offer': tsr['selectors'], 'offer': sa['proposals'], 'chosen': chosen,
+                  'keymat': km, 'entry': ent, 'alive': True, 'req': {'t': self.w.now, 'raw': self._raw, 'rewritten': False}, 'res': {'t': self.w.now}}
             self.children.append(ch)
             s.children.append(ch)
             self._c('children_granted')
